@@ -19,6 +19,22 @@ EMITTERS = {
     "shl": ("wasmCWriteShiftLeftExpr", _w("wasmOpcodeI32Shl", "wasmOpcodeI64Shl")),
     "shr_u": ("wasmCWriteUnsignedShiftRightExpr", _w("wasmOpcodeI32ShrU", "wasmOpcodeI64ShrU")),
     "shr_s": ("wasmCWriteSignedShiftRightExpr", _w("wasmOpcodeI32ShrS", "wasmOpcodeI64ShrS")),
+    "select": ("wasmCWriteSelectExpr", GENERIC),
+    "load": ("wasmCWriteLoad", [("off", ["OFFZ=0"]), ("0", ["OFFZ=1"])]),
+    "store": ("wasmCWriteStore", [("off", ["OFFZ=0"]), ("0", ["OFFZ=1"])]),
+    "local_get": ("wasmCWriteLocalGetExpr", GENERIC), "local_get_invalid": ("wasmCWriteLocalGetExpr", GENERIC),
+    "local_assign": ("wasmCWriteLocalAssignmentExpr", [("set", ["LOCAL_OPC=wasmOpcodeLocalSet"]), ("tee", ["LOCAL_OPC=wasmOpcodeLocalTee"])]),
+    "const": ("wasmCWriteConstExpr", [("32", ["CONST64=0"]), ("64", ["CONST64=1"])]),
+    "ignored": ("wasmCWriteLocalGetExpr", [("local_get", ["IGN_WHICH=0"]), ("local_set", ["IGN_WHICH=1"]), ("local_tee", ["IGN_WHICH=2"]), ("const", ["IGN_WHICH=3"])]),
+}
+ALL_VARIANTS_IN_QUICK = {"ignored"}
+EXTRA_FUNCS = {
+    "load": ["c.c:wasmCWriteStringMemoryUse"], "store": ["c.c:wasmCWriteStringMemoryUse"],
+    "local_get": ["module.h:wasmModuleFunctionGetLocalType", "locals.h:wasmLocalsDeclarationsGetType", "instruction.c:wasmLocalInstructionRead", "leb128.h:leb128ReadU32", "c.c:wasmCWriteStringLocalName"],
+    "local_get_invalid": ["module.h:wasmModuleFunctionGetLocalType", "locals.h:wasmLocalsDeclarationsGetType"],
+    "local_assign": ["module.h:wasmModuleFunctionGetLocalType", "locals.h:wasmLocalsDeclarationsGetType", "instruction.c:wasmLocalInstructionRead", "c.c:wasmCWriteStringLocalName"],
+    "ignored": ["c.c:wasmCWriteLocalAssignmentExpr", "c.c:wasmCWriteConstExpr", "instruction.c:wasmLocalInstructionRead", "instruction.c:wasmConstInstructionRead"],
+    "const": ["instruction.c:wasmConstInstructionRead", "leb128.h:leb128ReadI32", "leb128.h:leb128ReadI64", "c.c:wasmCWriteLiteral"],
 }
 COMMON = ["typestack.h:wasmTypeStackSet", "typestack.h:wasmTypeStackDrop", "typestack.h:wasmTypeStackGetTopIndex",
           "array.h:wasmTypeStackAppend", "array.h:arrayEnsureCapacity", "c.c:wasmCWriteStringStackName"]
@@ -31,10 +47,10 @@ def expr_jobs(ctx, which, solver="sat"):
         fn, variants = EMITTERS[nm]
         for vi, (suf, vdefs) in enumerate(variants):
             for pr in (0, 1):
-                if ctx.tier == "quick" and (pr or vi > 1):
+                if ctx.tier == "quick" and (pr or (vi > 1 and nm not in ALL_VARIANTS_IN_QUICK)):
                     continue
                 jobs.append(ejob(ctx, "E.h.%s%s%s" % (nm, suf, ".pretty" if pr else ""), "e_expr.c", "h_" + nm,
-                                 ["c.c:" + fn] + COMMON, defines=["PRETTY=%d" % pr, "INDENT=%d" % (2 if pr else 0)] + vdefs,
+                                 ["c.c:" + fn] + COMMON + EXTRA_FUNCS.get(nm, []), defines=["PRETTY=%d" % pr, "INDENT=%d" % (2 if pr else 0)] + vdefs,
                                  flags=["--unwind", "12", "--unwinding-assertions"], solver=solver,
                                  info=dict(layer="E", note="symbolic stack height h <= 2^24, symbolic operand and context types; "
                                            "array.c growth enters through its contract (job A.ensure_capacity)")))
